@@ -418,6 +418,89 @@ def run_paced_control(params, known):
     return dict(name=params['name'], evaluations=count, nontrivial_keys=sorted(keys), violations=violations, known=[], samples=[])
 
 
+def run_send_histories(params, known):
+    """C18, sending side of the UDPCL agent: histories of up to `depth` requests on one socket - a bundle
+    that goes out whole, one that is segmented, a peer's announcement that makes the agent queue a control
+    message - each followed by running the loop until quiet, for one step only, or not at all.  Every
+    started transfer is reported finished exactly once, after its start and with its own length; no
+    finished signal names a transfer that was never started."""
+    import itertools
+    prop = params.get('prop', 'C18')
+    violations = []
+    kinds = set()
+    keys = set()
+    count = 0
+
+    def viol(kind, detail, case):
+        if kind in kinds:
+            return
+        kinds.add(kind)
+        v = Violation(prop, 'udpcl-send', kind, dict(), '%r: %s' % (case, detail)).as_dict()
+        v['case'] = case
+        violations.append(v)
+    poll = C.dumps({3: 60000, 4: 'dtn://r/'})
+    ops = ('whole', 'segmented', 'peer-announces')
+    gaps = ('until-quiet', 'one-step', 'none')
+    for n in range(1, params['depth'] + 1):
+        for hist in itertools.product(ops, repeat=n):
+            if 'whole' not in hist and 'segmented' not in hist:
+                continue
+            for gap in gaps:
+                if n == 1 and gap != 'until-quiet':
+                    continue
+                case = dict(history=list(hist), between=gap)
+                world = UdpWorld(dict(agents=('S',), mtu=120))
+                lengths = {}
+                order = []
+                for (k, op) in enumerate(hist):
+                    if op == 'peer-announces':
+                        local = [key for (key, sock) in world.net.bound.items() if not sock.closed]
+                        for key in local:
+                            world.net.inject(key, R_ADDR, poll)
+                    else:
+                        data = bundle_like(60 + k if op == 'whole' else 300 + k, seed=k + 2)
+                        res = world.send('S', data)
+                        if res[0] != 'ok':
+                            viol('send-call-failed', repr(res), case)
+                            continue
+                        lengths[str(res[1])] = len(data)
+                        order.append(str(res[1]))
+                    if gap == 'until-quiet':
+                        world.quiesce()
+                    elif gap == 'one-step' and world.runnable(world.procs['S']):
+                        world.apply(('run', 'S'))
+                world.quiesce()
+                count += 1
+                keys.add('%s/%s' % ('+'.join(hist), gap))
+                if world.escaped:
+                    esc = world.escaped[-1]
+                    viol('exception-escaped-callback', '%s: %s' % (esc[1], esc[3]), case)
+                    continue
+                if world.sig_errors:
+                    viol('signal-does-not-fit-signature', repr(world.sig_errors[-1]), case)
+                if len(set(order)) != len(order):
+                    viol('transfer-id-reused', repr(order), case)
+                seen_start = []
+                fin_count = {}
+                for sg in world.signals['S']:
+                    if sg[0] == 'send_bundle_started':
+                        seen_start.append(str(sg[1]))
+                    elif sg[0] == 'send_bundle_finished':
+                        bid = str(sg[1])
+                        fin_count[bid] = fin_count.get(bid, 0) + 1
+                        if bid not in seen_start:
+                            viol('finished-signal-without-a-started-transfer', repr(sg), case)
+                        if bid in lengths and (sg[2] != lengths[bid] or sg[3] != 'success'):
+                            viol('finished-signal-arguments-differ', '%r for a bundle of %d octets' % (sg, lengths[bid]), case)
+                for bid in order:
+                    if seen_start.count(bid) != 1:
+                        viol('transfer-not-started-once', 'id %s started %d times' % (bid, seen_start.count(bid)), case)
+                    if fin_count.get(bid, 0) != 1:
+                        viol('started-transfer-not-finished-exactly-once', 'id %s: %d finished signals (%r)'
+                             % (bid, fin_count.get(bid, 0), [sg for sg in world.signals['S'] if sg[0].startswith('send_')]), case)
+    return dict(name=params['name'], evaluations=count, nontrivial_keys=sorted(keys), violations=violations, known=[], samples=[])
+
+
 def run_end_to_end(params, known):
     '''A real sender and a real receiver joined by the datagram network: bundles around the 64 KiB
     boundaries (and small ones) at several MTUs, datagrams delivered in order / reversed; handed to the
@@ -1068,4 +1151,6 @@ def c18_udp_scenarios(tier):
         out.append(dict(name='udpcl/first-%s' % ALPHA[first][0], kind='graph',
                         params=dict(udpcl=True, max_depth=4 if tier == 'thorough' else 3, letters=letters, prefix=[first]),
                         dev_bound=0, use_snapshot=False, liveness=False, max_states=300000, weight=5))
+    out.append(dict(name='udpcl/send-histories', kind='enum', runner='run_send_histories',
+                    params=dict(name='udpcl/send-histories', depth=4 if tier == 'thorough' else 3), weight=5))
     return out
